@@ -109,7 +109,7 @@ def _worker(args):
 
 
 def parallel_map(fn, items, chunk=None, nproc=None, progress=None,
-                 deadline=None):
+                 deadline=None, heavy_first=None):
     """Ordered-by-index results of fn(i, item) over a forked pool.
     Returns (results list (None where not done), completed_all)."""
     items = list(items)
@@ -121,11 +121,14 @@ def parallel_map(fn, items, chunk=None, nproc=None, progress=None,
     key = id(items)
     _WORK[key] = (fn, items)
     if chunk is None:
-        chunk = max(1, min(16, n // (nproc * 16) or 1))
+        chunk = 1 if n <= 30000 else 4
     jobs = [(key, lo, min(n, lo + chunk)) for lo in range(0, n, chunk)]
     # deterministic interleaving so that expensive neighbouring cases do not
     # all land at the end of the run
     jobs.sort(key=lambda j: (j[1] * 2654435761) % 4294967296)
+    if heavy_first is not None:
+        jobs.sort(key=lambda j: 0 if any(heavy_first(items[i]) for i in
+                                         range(j[1], j[2])) else 1)
     complete = True
     try:
         if nproc == 1 or n <= 2:
